@@ -396,6 +396,43 @@ CLAIMED = {
        "as fixed witnesses because they kill the process.",
   technique="Lean 4 proof (state-machine model; decided statements over translator-generated field sets) + model-guided differential testing of the implementation against itself",
   ref="4/C15"),
+ "C14": dict(
+  text="Lean 4 theorems over executable models of NodeIterator, TreeWalker, getElementsByTagName lists (with the C++ change-counter "
+       "cache) and Range on top of the C13 reference DOM store (imported, not copied): (iterator_next/prev/remove_spec, "
+       "iterator_remove_outside, iterator_in_subtree, iterator_remove_leaves_subtree, iterator_total) nextNode/previousNode return "
+       "exactly the successor/predecessor of the (reference, before/after) position in the filtered document order of the root's "
+       "subtree, the removal fix-up is the DOM Traversal 1.1.1 rule, and the pointer walks terminate with the stated fuel on every "
+       "well-formed store; (walker_next_spec, walker_eq_filter, walker_child_sibling_parent_spec, walker_std_of_rule/_of_code) "
+       "TreeWalker firstChild/nextSibling/parentNode/nextNode compute the logical view (REJECT hides subtrees, SKIP is transparent) "
+       "and the nextNode sequence from the root is the filtered document order, for every walker whose acceptNode gives the DOM "
+       "Traversal 1.2 verdicts; (deeplist_item_spec, deeplist_length_spec, deeplist_step, deeplist_cache_transparent) item/length "
+       "with the cached (node, index, change counter) equal the uncached list of matching elements after ANY interleaving of "
+       "mutations and queries; (range_fixup_spec, bounds_*, range_valid_preserved_partial) the boundary-point fix-ups of the code "
+       "are the DOM Range 2.12 functions and keep offsets within their containers; (compareBoundaryPoints_order) "
+       "compareBoundaryPoints is the comparison of a document-order linearisation of boundary points; (clone_pure) cloneContents "
+       "leaves every existing node record unchanged. Tied to the code by the C13 history protocol extended with view operations: "
+       "exhaustive histories of <=2 operations over a prefix with 3 walkers, 2 stepped iterators, 2 lists, 2 ranges, and random "
+       "histories of 150 / 800 operations on the real DOM with EVERY live view dumped after EVERY operation; the code-shaped model "
+       "must agree line by line; a model-independent Python judge checks list contents, iterator successor, walker logical view, "
+       "range validity, 2.12 fix-ups, setters, selectNode, toString, compare and content operations on the implementation's dumps.",
+  note="PARTIAL: range_valid_preserved is proved for offset bounds only (same root and start<=end after every operation: full statement "
+       "in a comment, checked dynamically after every operation; FALSE for splitText in the code as it is, witness "
+       "split_code_breaks_validity); extract_eq_clone_then_delete and toString_spec are proved for the single-container / structural "
+       "cases (_partial) and otherwise correspondence-only; TreeWalker backward methods and traverseContents agreement are "
+       "correspondence-only; deeplist_cache_transparent has the side condition OpOK (counter-bumping operations target the lists' "
+       "document); compareBoundaryPoints_order assumes TextLeaves; for the walker that mirrors the code the theorems need the side "
+       "condition NoHiddenReject (walker_eq_filter_code_partial; deviation proved: walker_code_deviates). 9 defects found: 7 repaired "
+       "in the code (95ba029 iterator removal before first step, 90eff9f insertData start offset, c2d2e71 previousNode deepest, 22dcaa6 "
+       "selectNode, 97e9b79 toString, 96874bb renameNode invalidates lists, 9e67458 content operations use deleteData); 2 OPEN known "
+       "findings that the library's pinned test-suite encodes (Traversal.cpp:534-536 filter consulted for nodes hidden by whatToShow; "
+       "RangeTest.cpp:678-813 offsets after insertNode's splitText: a range can start after it ends / span two trees): the "
+       "code-shaped model mirrors them, the judge reports them. Not exercised: content operations on ranges whose root container is "
+       "not Document/DocumentFragment/Attr or whose common ancestor holds an EntityReference; surroundContents with a newParent that "
+       "cannot be inserted (the library raises after extracting); insertNode/surroundContents with Comment/PI start container; "
+       "selectNode(Contents) of another document's node (no WRONG_DOCUMENT_ERR); getElementsByTagNameNS/getElementById/XPath. "
+       "Trusted: Lean kernel + 3 axioms, Spec/Views.lean, Spec/Dom.lean, the Python judge, translator (KidOK), harness/generators.",
+  technique="Lean 4 proof over reference model (imports C13) + code-shaped and Spec-rule model runs + model/implementation correspondence with spec judge, every view dumped after every operation",
+  ref="4/C14"),
 }
 
 def main():
